@@ -430,6 +430,9 @@ func checkC10(c *Ctx) {
 	c.Expect("R4", 7)
 	c.Expect("R5", 2)
 	checkEncoderIntegerText(c, "R7")
+	c.Rule("R8", "decoder state does not leak between messages: the nesting counter is balanced on every path (shared with C11.R4); inline commands are split on the space byte only")
+	c.withAlias(map[string]string{"R4": "R8"}, func() { checkRecursion(c, inputCone(p)) })
+	checkInlineSplit(c, "R8")
 
 	// ---------------- R6: ReadSlice's buffer-full branch
 	if readSlice != nil {
@@ -632,4 +635,36 @@ func checkEncoderIntegerText(c *Ctx, rule string) {
 		}
 	}
 	c.Expect(rule, 1)
+}
+
+// checkInlineSplit: an inline command must decode to the same request as its array form. Arguments are separated by
+// the space byte; a Unicode-aware splitter (bytes.Fields, strings.Fields, unicode.IsSpace) also splits on TAB, VT,
+// U+00A0, U+3000 ..., which are legal bytes inside an argument.
+func checkInlineSplit(c *Ctx, rule string) {
+	p := c.P
+	fn := p.Func(redisPkg, "(*decoder).decodeInline")
+	if fn == nil {
+		c.Unresolved(rule, "(*decoder).decodeInline")
+		return
+	}
+	bad := ""
+	var at token.Pos = fn.Pos()
+	for _, f := range append([]*ssa.Function{fn}, staticCalleesDeep(fn, 2)...) {
+		eachInstr(f, func(_ *ssa.BasicBlock, _ int, in ssa.Instruction) {
+			cc := callOf(in)
+			if cc == nil {
+				return
+			}
+			g := calleeFn(cc)
+			if g == nil || g.Pkg == nil {
+				return
+			}
+			switch g.Pkg.Pkg.Path() + "." + g.Name() {
+			case "bytes.Fields", "strings.Fields", "bytes.FieldsFunc", "strings.FieldsFunc", "unicode.IsSpace", "bytes.TrimSpace", "strings.TrimSpace":
+				bad = g.Pkg.Pkg.Path() + "." + g.Name()
+				at = in.Pos()
+			}
+		})
+	}
+	c.Check(bad == "", rule, "inline command split on the space byte only", at, "no Unicode-aware splitter in the inline decoder", "the inline decoder uses "+bad+", which also splits on TAB, VT, FF and Unicode spaces (U+00A0, U+3000 ...): an argument that contains such a character is cut in two, so the inline form no longer decodes to the same request as the array form")
 }
